@@ -5,7 +5,17 @@ use verif_harness::*;
 
 fn gen_weights(r: &mut Rng, big: bool) -> (&'static str, Vec<i64>) {
     let maxn = if big { 36 } else { 20 };
-    match r.below(10) {
+    match r.below(11) {
+        10 => {
+            // every weight <= 0, at least one negative and at least one zero (the maximum is exactly 0)
+            let n = r.range(2, 9) as usize;
+            let mut ws: Vec<i64> = (0..n).map(|_| if r.chance(1, 2) { 0 } else { -r.range(0, 9) }).collect();
+            let i = r.below(n as u64) as usize;
+            let j = (i + 1 + r.below(n as u64 - 1) as usize) % n;
+            ws[i] = 0;
+            ws[j] = -r.range(1, 9);
+            ("nonpositive", ws)
+        }
         0 => {
             let n = r.range(1, 7) as usize;
             ("small_alphabet", (0..n).map(|_| r.range(0, 4)).collect())
@@ -88,6 +98,102 @@ fn gen_partition(r: &mut Rng, n: usize) -> (&'static str, Vec<usize>) {
 
 type Out = (Result<usize, coupe::Error>, Vec<usize>);
 
+/// the partitioner VALUE that outlives a call (`partition` takes `&mut self`)
+#[derive(Clone, Copy)]
+enum Part {
+    B(coupe::VnBest),
+    F(coupe::VnFirst),
+}
+
+fn call(part: Part, p0: Vec<usize>, ws: Vec<i64>, flt: bool) -> Guarded<(Out, Part)> {
+    guarded(0, Duration::from_secs(20), move || {
+        let mut p = p0;
+        let wf: Vec<f64> = ws.iter().map(|x| *x as f64).collect();
+        match part {
+            Part::B(mut v) => {
+                let r = if flt { v.partition(&mut p, wf.iter().cloned()) } else { v.partition(&mut p, ws.iter().cloned()) };
+                ((r, p), Part::B(v))
+            }
+            Part::F(mut v) => {
+                let r = if flt { v.partition(&mut p, &wf[..]) } else { v.partition(&mut p, &ws[..]) };
+                ((r, p), Part::F(v))
+            }
+        }
+    })
+}
+
+struct Counters {
+    hangs: usize,
+    panics: usize,
+    f64_runs: usize,
+    moved: usize,
+}
+
+/// runs one call, returns (coq case, json of the implementation's outcome, array after the call if it returned)
+fn one_call(
+    part: &mut Option<Part>,
+    alg: u64,
+    flt: bool,
+    ws: &[i64],
+    p0: &[usize],
+    c: &mut Counters,
+) -> (String, String, Option<Vec<usize>>) {
+    let res = match *part {
+        Some(pt) => call(pt, p0.to_vec(), ws.to_vec(), flt),
+        None => Guarded::Hang,
+    };
+    if flt {
+        c.f64_runs += 1;
+    }
+    let mut after_ok = None;
+    let (impl_coq, cnt, after, impl_json) = match res {
+        Guarded::Done(((Ok(n), p), pt)) => {
+            *part = Some(pt);
+            if p != p0 {
+                c.moved += 1;
+            }
+            after_ok = Some(p.clone());
+            (
+                format!("(IOk {})", coq_nlist(p.iter().map(|x| *x as u128))),
+                n,
+                p.clone(),
+                format!("{{\"ok\":{},\"count\":{}}}", json_usizes(&p), n),
+            )
+        }
+        Guarded::Done(((Err(e), p), pt)) => {
+            *part = Some(pt);
+            after_ok = Some(p.clone());
+            (
+                coq_err(&e),
+                0,
+                p.clone(),
+                format!("{{\"err\":{},\"after\":{}}}", json_str(&format!("{:?}", e)), json_usizes(&p)),
+            )
+        }
+        Guarded::Panic(m) => {
+            c.panics += 1;
+            *part = None;
+            ("IPanic".to_string(), 0, vec![], format!("{{\"panic\":{}}}", json_str(&m)))
+        }
+        Guarded::Hang => {
+            c.hangs += 1;
+            *part = None;
+            ("IHang".to_string(), 0, vec![], "{\"hang\":true}".to_string())
+        }
+    };
+    let coq = format!(
+        "mk14 {}%N {} {} {} {} {}%N {}",
+        alg,
+        coq_bool(flt),
+        coq_zlist(ws.iter().map(|x| *x as i128)),
+        coq_nlist(p0.iter().map(|x| *x as u128)),
+        impl_coq,
+        cnt,
+        coq_nlist(after.iter().map(|x| *x as u128)),
+    );
+    (coq, impl_json, after_ok)
+}
+
 fn main() {
     let a = parse_args();
     quiet_panics();
@@ -99,14 +205,78 @@ fn main() {
         "run14",
         250,
     );
-    let mut hangs = 0usize;
-    let mut panics = 0usize;
-    let mut f64_runs = 0usize;
-    let mut moved = 0usize;
-    for idx in 0..a.cases {
+    let mut c = Counters { hangs: 0, panics: 0, f64_runs: 0, moved: 0 };
+    let mut reuse_sequences = 0usize;
+    let mut reuse_calls = 0usize;
+    let big = a.tier == "thorough";
+    let mut idx = 0usize;
+    while idx < a.cases {
         let mut r = rng.fork();
-        let big = a.tier == "thorough";
         let alg = r.below(2);
+        if r.chance(1, 8) {
+            // ---- reuse stream: ONE partitioner value (a unit struct today) for a short sequence of calls:
+            // its own output again, other weights on that output, an input of another length.
+            // Every call is a case of its own (model and checker on that call's input).
+            reuse_sequences += 1;
+            let ncalls = r.range(2, 4) as usize;
+            let mut part = Some(if alg == 0 { Part::B(coupe::VnBest) } else { Part::F(coupe::VnFirst) });
+            let (_, mut ws) = gen_weights(&mut r, big);
+            let (_, mut p0) = gen_partition(&mut r, ws.len());
+            let mut earlier: Vec<String> = Vec::new();
+            for pos in 0..ncalls {
+                if idx >= a.cases || part.is_none() {
+                    break;
+                }
+                let flt = r.chance(1, 3);
+                let (coq, impl_json, after) = one_call(&mut part, alg, flt, &ws, &p0, &mut c);
+                reuse_calls += 1;
+                if a.only.map_or(true, |o| o == idx) {
+                    let json = format!(
+                        "{{\"algorithm\":\"{}\",\"f64\":{},\"weights\":{},\"partition\":{},\"impl\":{},\"reuse\":{{\"position\":{},\"note\":\"same partitioner value as the earlier calls\",\"earlier_calls\":[{}]}}}}",
+                        if alg == 0 { "VnBest" } else { "VnFirst" },
+                        flt,
+                        json_i64s(&ws),
+                        json_usizes(&p0),
+                        impl_json,
+                        pos,
+                        earlier.join(",")
+                    );
+                    let key = format!("reuse|{}|{}|{:?}|{:?}|{}", alg, flt, ws, p0, pos);
+                    let nontrivial = p0.len() == ws.len()
+                        && ws.len() >= 3
+                        && p0.iter().any(|x| *x != 0)
+                        && ws.iter().any(|x| *x != 0);
+                    let fam = format!("{}:reuse", if alg == 0 { "best" } else { "first" });
+                    w.push(coq, json, &key, nontrivial, &fam);
+                }
+                earlier.push(format!(
+                    "{{\"weights\":{},\"partition\":{},\"f64\":{}}}",
+                    json_i64s(&ws),
+                    json_usizes(&p0),
+                    flt
+                ));
+                idx += 1;
+                // the next input: the array the call left (same or new weights), or something else entirely
+                match (r.below(3), after) {
+                    (0, Some(p)) if p.len() == ws.len() => p0 = p,
+                    (1, Some(p)) if p.len() == ws.len() => {
+                        p0 = p;
+                        let n = ws.len();
+                        ws = (0..n).map(|_| r.range(0, 20)).collect();
+                    }
+                    _ => {
+                        ws = gen_weights(&mut r, big).1;
+                        let n = ws.len();
+                        let plen = if r.chance(1, 10) { n + 1 } else { n };
+                        p0 = gen_partition(&mut r, plen).1;
+                    }
+                }
+            }
+            if c.hangs > 3 {
+                break;
+            }
+            continue;
+        }
         let (wfam, ws) = gen_weights(&mut r, big);
         let n = ws.len();
         // malformed stream: partition length differs (shorter, longer, empty)
@@ -118,71 +288,17 @@ fn main() {
                 _ => n.saturating_sub(1 + r.below(2) as usize),
             };
         }
-        let (pfam, p0) = gen_partition(&mut r, plen);
+        let (_pfam, p0) = gen_partition(&mut r, plen);
         let flt = r.chance(1, 3);
+        let this = idx;
+        idx += 1;
         if let Some(o) = a.only {
-            if o != idx {
+            if o != this {
                 continue;
             }
         }
-        let ws2 = ws.clone();
-        let p02 = p0.clone();
-        let res: Guarded<Out> = guarded(0, Duration::from_secs(20), move || {
-            let mut p = p02;
-            let r = if flt {
-                let wf: Vec<f64> = ws2.iter().map(|x| *x as f64).collect();
-                if alg == 0 {
-                    coupe::VnBest.partition(&mut p, wf.iter().cloned())
-                } else {
-                    coupe::VnFirst.partition(&mut p, &wf[..])
-                }
-            } else if alg == 0 {
-                coupe::VnBest.partition(&mut p, ws2.iter().cloned())
-            } else {
-                coupe::VnFirst.partition(&mut p, &ws2[..])
-            };
-            (r, p)
-        });
-        if flt {
-            f64_runs += 1;
-        }
-        let (impl_coq, cnt, after, impl_json) = match &res {
-            Guarded::Done((Ok(c), p)) => {
-                if *p != p0 {
-                    moved += 1;
-                }
-                (
-                    format!("(IOk {})", coq_nlist(p.iter().map(|x| *x as u128))),
-                    *c,
-                    p.clone(),
-                    format!("{{\"ok\":{},\"count\":{}}}", json_usizes(p), c),
-                )
-            }
-            Guarded::Done((Err(e), p)) => (
-                coq_err(e),
-                0,
-                p.clone(),
-                format!("{{\"err\":{},\"after\":{}}}", json_str(&format!("{:?}", e)), json_usizes(p)),
-            ),
-            Guarded::Panic(m) => {
-                panics += 1;
-                ("IPanic".to_string(), 0, vec![], format!("{{\"panic\":{}}}", json_str(m)))
-            }
-            Guarded::Hang => {
-                hangs += 1;
-                ("IHang".to_string(), 0, vec![], "{\"hang\":true}".to_string())
-            }
-        };
-        let coq = format!(
-            "mk14 {}%N {} {} {} {} {}%N {}",
-            alg,
-            coq_bool(flt),
-            coq_zlist(ws.iter().map(|x| *x as i128)),
-            coq_nlist(p0.iter().map(|x| *x as u128)),
-            impl_coq,
-            cnt,
-            coq_nlist(after.iter().map(|x| *x as u128)),
-        );
+        let mut part = Some(if alg == 0 { Part::B(coupe::VnBest) } else { Part::F(coupe::VnFirst) });
+        let (coq, impl_json, _) = one_call(&mut part, alg, flt, &ws, &p0, &mut c);
         let json = format!(
             "{{\"algorithm\":\"{}\",\"f64\":{},\"weights\":{},\"partition\":{},\"impl\":{}}}",
             if alg == 0 { "VnBest" } else { "VnFirst" },
@@ -193,19 +309,15 @@ fn main() {
         );
         let key = format!("{}|{}|{:?}|{:?}", alg, flt, ws, p0);
         // non-trivial: matching lengths, at least two parts in the input, at least 3 weights, not all zero
-        let nontrivial = plen == n
-            && n >= 3
-            && p0.iter().any(|x| *x != 0)
-            && ws.iter().any(|x| *x != 0);
-        let _ = pfam;
+        let nontrivial = plen == n && n >= 3 && p0.iter().any(|x| *x != 0) && ws.iter().any(|x| *x != 0);
         let fam = format!("{}:{}", if alg == 0 { "best" } else { "first" }, wfam);
         w.push(coq, json, &key, nontrivial, &fam);
-        if hangs > 3 {
+        if c.hangs > 3 {
             break;
         }
     }
     w.finish(&format!(
-        "\"hangs\":{},\"panics\":{},\"f64_runs\":{},\"moved\":{}",
-        hangs, panics, f64_runs, moved
+        "\"hangs\":{},\"panics\":{},\"f64_runs\":{},\"moved\":{},\"reuse_sequences\":{},\"reuse_calls\":{}",
+        c.hangs, c.panics, c.f64_runs, c.moved, reuse_sequences, reuse_calls
     ));
 }
